@@ -47,6 +47,11 @@ Proof. intros A B o k Ho Hk; destruct o; simpl in *; auto; discriminate. Qed.
 
 Lemma rewrap_ok : forall A c (o : outcome A) a, rewrap c o = Ok a <-> o = Ok a.
 Proof. intros A c o a; destruct o; simpl; split; intros H; auto; discriminate. Qed.
+(* rewrap_path (D67 repaired: the re-wrapped constraint error keeps the path) — same shape *)
+Lemma rewrap_path_ok : forall A (o : outcome A) a, rewrap_path o = Ok a <-> o = Ok a.
+Proof. intros A o a; destruct o; simpl; split; intros H; auto; discriminate. Qed.
+Lemma rewrap_path_verdict : forall A (o : outcome A), is_verdict (rewrap_path o) = is_verdict o.
+Proof. intros A o; destruct o; reflexivity. Qed.
 Lemma seg_ok : forall A s (o : outcome A) a, seg s o = Ok a <-> o = Ok a.
 Proof. intros A s o a; destruct o; simpl; split; intros H; auto; discriminate. Qed.
 Lemma rewrap_verdict : forall A c (o : outcome A), is_verdict (rewrap c o) = is_verdict o.
